@@ -98,10 +98,45 @@ type e2eConfig struct {
 	NoWait bool
 }
 
+// lateElements installs the shipped element file while the collector runs, the way a plain copy does it: in two
+// writes half a second apart (both within one second of the wall clock), three times over, then waits 2 s. A collector reads the
+// file at start-up or whenever it likes; what it decodes afterwards must be what the complete file (= the built-in
+// table) says.
+func lateElements(dir string) {
+	src, err := os.ReadFile(filepath.Join(repoDir(), "scripts", "ipfix.elements"))
+	if err != nil {
+		return
+	}
+	cut := bytes.LastIndexByte(src[:len(src)*45/100], '\n') + 1
+	dst := filepath.Join(dir, "ipfix.elements")
+	// three times (the file is copied again: a deployment tool that runs more than once)
+	for round := 0; round < 3; round++ {
+		for time.Now().Nanosecond() > 150e6 {
+			time.Sleep(10 * time.Millisecond)
+		}
+		f, err := os.OpenFile(dst, os.O_CREATE|os.O_WRONLY|os.O_TRUNC, 0o644)
+		if err != nil {
+			return
+		}
+		f.Write(src[:cut])
+		f.Sync()
+		time.Sleep(550 * time.Millisecond)
+		f.Write(src[cut:])
+		f.Close()
+		time.Sleep(400 * time.Millisecond)
+	}
+	time.Sleep(2 * time.Second)
+}
+
 // startVflow writes the configuration into dir and starts the collector; a start that fails because a port
 // was taken by somebody else in the meantime is repeated with another port block.
 func startVflow(dir string, ports e2ePorts, cfg e2eConfig, race bool) (*vflowProc, error) {
 	p, err := startVflowOnce(dir, ports, cfg, race)
+	defer func() {
+		if err == nil && cfg.Extra["~elements~"] == "late" {
+			lateElements(dir)
+		}
+	}()
 	for try := 0; err != nil && p != nil && try < 3 && strings.Contains(p.stderrText(), "address already in use") && e2eDropKeys == nil; try++ {
 		np, perr := pickPorts()
 		if perr != nil {
@@ -158,6 +193,9 @@ func startVflowOnce(dir string, ports e2ePorts, cfg e2eConfig, race bool) (*vflo
 			}
 			dst := filepath.Join(dir, "ipfix.elements")
 			os.Remove(dst)
+			if v == "late" {
+				continue // installed while the collector runs, see lateElements
+			}
 			if v == "link" {
 				real := filepath.Join(dir, "ipfix.elements.real")
 				if err := os.WriteFile(real, src, 0o644); err != nil {
